@@ -33,7 +33,7 @@ Proof. unfold chg; simpl; destruct (chgb o); reflexivity. Qed.
 Record frame (s s' : st) : Prop := {
   f_lvl : lvl s' = lvl s; f_dstep : dstep s' = dstep s; f_dval : dval s' = dval s; f_don : d_on s' = d_on s;
   f_ddue : d_due s' = d_due s; f_last : last s' = last s; f_chg : chg (outs s') = chg (outs s);
-  f_now : now s <= now s' }.
+  f_late : late s' = late s; f_now : now s <= now s' }.
 
 Lemma frame_refl s : frame s s.
 Proof. constructor; reflexivity || lia. Qed.
@@ -143,7 +143,6 @@ Proof. intros; unfold mot_cb; fr2. Qed.
 
 (* ---------- the sampler is touched only by the interrupt and by its own timer ---------- *)
 Lemma fr_set_tr : forall s x v, frame s x -> frame s (set_tr v x). Proof. fr_set. Qed.
-Lemma fr_set_late : forall s x v, frame s x -> frame s (set_late v x). Proof. fr_set. Qed.
 
 Lemma mact_frame c m s : is_in m = false -> m <> MDeb -> frame s (mact c m s).
 Proof.
@@ -156,8 +155,11 @@ Proof.
   - apply fr_set_triggers; apply frame_refl.
 Qed.
 
-Lemma mstep_mact_frame c m s : frame (mact c m s) (mstep c m s).
-Proof. unfold mstep. cbv zeta. apply fr_set_tr, fr_set_late, frame_refl. Qed.
+Lemma mstep_proj c m s :
+  let a := mact c m s in let b := mstep c m s in
+  lvl b = lvl a /\ dstep b = dstep a /\ dval b = dval a /\ d_on b = d_on a /\ d_due b = d_due a /\
+  last b = last a /\ outs b = outs a /\ now b = now a /\ halted b = halted a.
+Proof. unfold mstep; cbv zeta; destruct (mact c m s); cbn; repeat split. Qed.
 Lemma halted_mstep c m s : halted (mstep c m s) = halted (mact c m s).
 Proof. unfold mstep; cbv zeta; destruct (mact c m s); reflexivity. Qed.
 Lemma late_mstep c m s : late (mstep c m s) = Z.max (late (mact c m s)) (pend (mact c m s)).
@@ -170,7 +172,7 @@ Proof. intros H; unfold mact; rewrite H; reflexivity. Qed.
 (* notify: only last_state, the silent flag, the machine and the outputs change *)
 Record sframe (s s' : st) : Prop := {
   sf_lvl : lvl s' = lvl s; sf_dstep : dstep s' = dstep s; sf_dval : dval s' = dval s; sf_don : d_on s' = d_on s;
-  sf_ddue : d_due s' = d_due s; sf_now : now s <= now s' }.
+  sf_ddue : d_due s' = d_due s; sf_late : late s' = late s; sf_now : now s <= now s' }.
 Lemma frame_sframe s s' : frame s s' -> sframe s s'.
 Proof. intros []; constructor; assumption. Qed.
 
@@ -203,7 +205,7 @@ Proof.
       assert (F3 : frame s2 (if negb (act s2 =? 0) then adv_handler c st_ (set_t_adv true s2)
                              else legacy_handler c st_ (set_t_adv false s2))).
       { destruct (negb _); [apply fr_adv_handler|apply fr_legacy_handler]; fr. }
-      destruct F3 as [a1 a2 a3 a4 a5 a6 a7 a8]. destruct F2 as [b1 b2 b3 b4 b5 b6].
+      destruct F3 as [a1 a2 a3 a4 a5 a6 a7 a9 a8]. destruct F2 as [b1 b2 b3 b4 b5 b7 b6].
       split; [|split].
       * constructor; try congruence; lia.
       * congruence.
@@ -219,7 +221,7 @@ Record WF (c : cfgT) (s : st) : Prop := {
 
 Lemma WF_frame c s s' : frame s s' -> WF c s -> WF c s'.
 Proof.
-  intros [a1 a2 a3 a4 a5 a6 a7 a8] [w1 w2 w3 w4]. constructor.
+  intros [a1 a2 a3 a4 a5 a6 a7 a9 a8] [w1 w2 w3 w4]. constructor.
   - rewrite a2; exact w1.
   - rewrite a4, a2; exact w2.
   - rewrite a2, a6, a1; exact w3.
@@ -239,7 +241,7 @@ Proof.
 Qed.
 Lemma deb_cb_C c s : caseA s = false -> caseB s = false -> deb_cb c s = set_dstep (dstep s + 1) s.
 Proof.
-  unfold caseB, deb_cb; cbv zeta; intros H1 H2. unfold caseA in H1. rewrite H1 in *. cbn in H2. rewrite H2. reflexivity.
+  unfold caseB, caseA, deb_cb; cbv zeta; intros H1 H2. rewrite H1 in *. cbn in H2. rewrite H2. reflexivity.
 Qed.
 
 Definition rearm_d (s : st) : st := set_seqc (seqc s + 1) (set_d_seq (seqc s + 1) (set_d_due (d_due s + CYCLE_US) s)).
@@ -250,44 +252,222 @@ Proof. intros H; unfold mact; rewrite H; reflexivity. Qed.
 Lemma micro_eq_deb (m : micro) : {m = MDeb} + {m <> MDeb}.
 Proof. destruct m; (left; reflexivity) || (right; discriminate). Qed.
 
+Ltac wfin := try lia; try assumption; try reflexivity; try discriminate; try congruence;
+  try (split; intros; (lia || congruence || assumption || reflexivity || discriminate)).
+
 Lemma WF_mact c m s : WF c s -> halted (mact c m s) = false -> WF c (mact c m s).
 Proof.
   intros W Hh. destruct (halted s) eqn:Hs; [rewrite mact_halted in * by assumption; exact W|].
+  pose proof CF as [Cy Mi _ _ _ _ _].
   destruct (is_in m) eqn:Ei.
   { destruct m; try discriminate. unfold mact in *. rewrite Hs in *.
     destruct (l =? lvl s) eqn:El; [exact W|]. destruct W as [w1 w2 w3 w4]. unfold isr.
     assert (E0 : dstep (set_lvl l s) = dstep s) by (destruct s; reflexivity). rewrite E0.
-    destruct (dstep s =? 0) eqn:E.
-    - apply Z.eqb_eq in E. pose proof CF as [Cy Mi _ _ _ _ _].
-      destruct s; cbn in *; constructor; cbn; try lia.
-      + split; [lia|reflexivity].
-    - apply Z.eqb_neq in E. destruct s; cbn in *; constructor; cbn; try assumption; try lia. }
+    destruct (dstep s =? 0) eqn:E; [|destruct (rst c)].
+    - apply Z.eqb_eq in E. destruct s; cbn in *; constructor; cbn; wfin.
+    - apply Z.eqb_neq in E. assert (Don : d_on s = true) by (apply w2; exact E).
+      destruct s; cbn in *; constructor; cbn; wfin.
+    - apply Z.eqb_neq in E. destruct s; cbn in *; constructor; cbn; wfin. }
   destruct (micro_eq_deb m) as [->|Hd].
   2:{ eapply WF_frame; [apply mact_frame; assumption|exact W]. }
   rewrite mact_deb in * by assumption.
   destruct (d_on s && (d_due s <=? now s)) eqn:Ep; [|exact W].
   apply andb_prop in Ep as [Ep1 Ep2]. apply Z.leb_le in Ep2.
-  destruct W as [w1 w2 w3 w4]. pose proof CF as [Cy Mi _ _ _ _ _].
+  destruct W as [w1 w2 w3 w4].
   assert (R1 : dstep (rearm_d s) = dstep s /\ dval (rearm_d s) = dval s /\ lvl (rearm_d s) = lvl s /\
                d_on (rearm_d s) = d_on s /\ d_due (rearm_d s) = d_due s + CYCLE_US /\ now (rearm_d s) = now s /\
                last (rearm_d s) = last s) by (destruct s; cbn; repeat split).
-  destruct R1 as (r1 & r2 & r3 & r4 & r5 & r6 & r7).
+  destruct R1 as (r1 & r2 & r3 & r4 & r5 & r6 & r7). specialize (w4 Ep1).
   destruct (caseA (rearm_d s)) eqn:EA.
   - rewrite deb_cb_A by assumption. set (x := rearm_d s) in *.
-    destruct x; cbn in *; constructor; cbn; try lia.
-    + split; [lia|intros; congruence].
-    + intros; specialize (w4 Ep1); lia.
+    destruct x; cbn in *; constructor; cbn; wfin.
   - destruct (caseB (rearm_d s)) eqn:EB.
     + rewrite deb_cb_B in * by assumption. cbv zeta in *.
-      destruct (notify_spec c (stl c (lvl (rearm_d s))) (rearm_d s)) as ([n1 n2 n3 n4 n5 n6] & nl & _).
-      set (y := notify c _ _) in *. rewrite Hh in *.
-      destruct y; cbn in *; constructor; cbn; try lia.
-      * split; [discriminate|congruence].
-      * intros _. congruence.
-      * discriminate.
+      destruct (notify_spec c (stl c (lvl (rearm_d s))) (rearm_d s)) as ([n1 n2 n3 n4 n5 n7 n6] & nl & _).
+      set (y := notify c _ _) in *. destruct (halted y) eqn:Hy; [congruence|].
+      destruct y; cbn in *; constructor; cbn; wfin.
     + rewrite deb_cb_C by assumption. unfold caseB in EB. rewrite EA in EB. cbn in EB. apply Z.ltb_ge in EB.
       set (x := rearm_d s) in *. unfold caseA in EA. apply orb_false_iff in EA as [EA1 EA2]. apply Z.eqb_neq in EA1.
-      destruct x; cbn in *; constructor; cbn; try lia.
-      * split; [lia|intros; congruence].
-      * intros; specialize (w4 Ep1); lia.
+      destruct x; cbn in *; constructor; cbn; wfin.
+Qed.
+
+(* ---------- halted is absorbing, time never goes back ---------- *)
+Lemma halted_sticky c m s : halted s = true -> halted (mstep c m s) = true.
+Proof. intros H. rewrite halted_mstep, mact_halted; assumption. Qed.
+Lemma mstep_halted_id c m s : halted s = true ->
+  lvl (mstep c m s) = lvl s /\ dstep (mstep c m s) = dstep s /\ last (mstep c m s) = last s /\
+  outs (mstep c m s) = outs s /\ now (mstep c m s) = now s.
+Proof. intros H. unfold mstep. rewrite mact_halted by assumption. destruct s; cbn; repeat split. Qed.
+
+Lemma deb_fields c s : halted s = false -> d_on s = true -> d_due s <= now s ->
+  let x := rearm_d s in let r := mact c MDeb s in
+  (caseA x = true /\ dstep r = 2 /\ dval r = lvl s /\ lvl r = lvl s /\ d_on r = true /\ d_due r = d_due s + CYCLE_US /\
+     last r = last s /\ outs r = outs s /\ now r = now s /\ halted r = false) \/
+  (caseA x = false /\ caseB x = true /\ lvl r = lvl s /\ last r = stl c (lvl s) /\ now s <= now r /\
+     chg (outs r) = (if last s =? stl c (lvl s) then chg (outs s) else S (chg (outs s))) /\
+     (halted r = false -> dstep r = 0 /\ d_on r = false)) \/
+  (caseA x = false /\ caseB x = false /\ dstep r = dstep s + 1 /\ dval r = dval s /\ lvl r = lvl s /\ d_on r = true /\
+     d_due r = d_due s + CYCLE_US /\ last r = last s /\ outs r = outs s /\ now r = now s /\ halted r = false).
+Proof.
+  intros Hs Hon Hdue. cbv zeta. rewrite mact_deb by assumption.
+  rewrite Hon. replace (d_due s <=? now s) with true by (symmetry; apply Z.leb_le; assumption). cbn [andb].
+  assert (R1 : dstep (rearm_d s) = dstep s /\ dval (rearm_d s) = dval s /\ lvl (rearm_d s) = lvl s /\
+               d_on (rearm_d s) = d_on s /\ d_due (rearm_d s) = d_due s + CYCLE_US /\ now (rearm_d s) = now s /\
+               last (rearm_d s) = last s /\ outs (rearm_d s) = outs s /\ halted (rearm_d s) = halted s)
+    by (destruct s; cbn; repeat split).
+  destruct R1 as (r1 & r2 & r3 & r4 & r5 & r6 & r7 & r8 & r9).
+  destruct (caseA (rearm_d s)) eqn:EA.
+  - left. rewrite deb_cb_A by assumption. set (x := rearm_d s) in *.
+    destruct x; cbn in *. repeat split; congruence.
+  - destruct (caseB (rearm_d s)) eqn:EB.
+    + right; left. rewrite deb_cb_B by assumption. cbv zeta.
+      destruct (notify_spec c (stl c (lvl (rearm_d s))) (rearm_d s)) as ([n1 n2 n3 n4 n5 n7 n6] & nl & nc).
+      set (y := notify c _ _) in *. rewrite r3, r7, r8 in *.
+      destruct (halted y) eqn:Hy.
+      * repeat split; try congruence; try lia; intros; discriminate.
+      * destruct y; cbn in *. repeat split; try congruence; try lia.
+    + right; right. rewrite deb_cb_C by assumption. set (x := rearm_d s) in *.
+      destruct x; cbn in *. repeat split; congruence.
+Qed.
+
+Lemma mact_now c m s : now s <= now (mact c m s).
+Proof.
+  destruct (halted s) eqn:Hs; [rewrite mact_halted by assumption; lia|].
+  destruct (is_in m) eqn:Ei.
+  { destruct m; try discriminate. unfold mact. rewrite Hs. destruct (l =? lvl s); [lia|].
+    unfold isr, arm_d. repeat match goal with |- context[if ?b then _ else _] => destruct b end; destruct s; cbn; lia. }
+  destruct (micro_eq_deb m) as [->|Hd]; [|apply (mact_frame c m s Ei Hd)].
+  destruct (d_on s && (d_due s <=? now s)) eqn:Ep.
+  - apply andb_prop in Ep as [Ep1 Ep2]. apply Z.leb_le in Ep2.
+    destruct (deb_fields c s Hs Ep1 Ep2) as [H|[H|H]]; cbv zeta in H; intuition lia.
+  - rewrite mact_deb by assumption. rewrite Ep. lia.
+Qed.
+Lemma mstep_now c m s : now s <= now (mstep c m s).
+Proof. pose proof (mact_now c m s). destruct (mstep_proj c m s) as (_&_&_&_&_&_&_&E&_). cbv zeta in E. lia. Qed.
+Lemma mrun_cons c m ms s : mrun c (m :: ms) s = mrun c ms (mstep c m s).
+Proof. reflexivity. Qed.
+Lemma mrun_app c a b s : mrun c (a ++ b) s = mrun c b (mrun c a s).
+Proof. unfold mrun. apply fold_left_app. Qed.
+Lemma mrun_now c ms : forall s, now s <= now (mrun c ms s).
+Proof. induction ms as [|m ms IH]; intros s; [cbn; lia|]. rewrite mrun_cons. specialize (IH (mstep c m s)). pose proof (mstep_now c m s). lia. Qed.
+Lemma mact_late c m s : late (mact c m s) = late s.
+Proof.
+  destruct (halted s) eqn:Hs; [rewrite mact_halted by assumption; reflexivity|].
+  destruct (is_in m) eqn:Ei.
+  { destruct m; try discriminate. unfold mact. rewrite Hs. destruct (l =? lvl s); [reflexivity|].
+    unfold isr, arm_d. repeat match goal with |- context[if ?b then _ else _] => destruct b end; destruct s; reflexivity. }
+  destruct (micro_eq_deb m) as [->|Hd]; [|apply (f_late _ _ (mact_frame c m s Ei Hd))].
+  rewrite mact_deb by assumption. destruct (d_on s && _); [|reflexivity].
+  assert (R : late (rearm_d s) = late s) by (destruct s; reflexivity).
+  destruct (caseA (rearm_d s)) eqn:EA; [|destruct (caseB (rearm_d s)) eqn:EB].
+  - rewrite deb_cb_A by assumption. rewrite <- R. set (x := rearm_d s). destruct x; reflexivity.
+  - rewrite deb_cb_B by assumption. cbv zeta. rewrite <- R.
+    pose proof (sf_late _ _ (proj1 (notify_spec c (stl c (lvl (rearm_d s))) (rearm_d s)))) as E.
+    set (y := notify c _ _) in *. destruct (halted y); [exact E|]. rewrite <- E. destruct y; reflexivity.
+  - rewrite deb_cb_C by assumption. rewrite <- R. set (x := rearm_d s). destruct x; reflexivity.
+Qed.
+Lemma mstep_late c m s : late s <= late (mstep c m s).
+Proof. rewrite late_mstep, mact_late. lia. Qed.
+Lemma mrun_late c ms : forall s, late s <= late (mrun c ms s).
+Proof. induction ms as [|m ms IH]; intros s; [cbn; lia|]. rewrite mrun_cons. specialize (IH (mstep c m s)). pose proof (mstep_late c m s). lia. Qed.
+Lemma mstep_pend c m s : pend (mstep c m s) <= late (mstep c m s).
+Proof. rewrite late_mstep, pend_mstep. lia. Qed.
+
+(* ---------- a quiet window: the pin stays at level L from time q on ---------- *)
+(* number of further sampler ticks until the notify, if every tick reads L *)
+Definition rem (L : Z) (s : st) : Z :=
+  if dstep s =? 0 then 0 else if dstep s =? 1 then 6 else if dval s =? L then 7 - dstep s else 6.
+
+Definition bump (a b t : Z) : nat := if (a =? t) && negb (b =? t) then 1%nat else 0%nat.
+
+Record Q (c : cfgT) (q L l0 : Z) (n0 : nat) (s : st) : Prop := {
+  q_wf : WF c s;
+  q_lvl : lvl s = L;
+  q_due : dstep s <> 0 -> d_due s + CYCLE_US * (rem L s - 1) <= q + ACCEPT_US;
+  q_last : last s = l0 \/ last s = stl c L;
+  q_cnt : chg (outs s) = (n0 + bump (last s) l0 (stl c L))%nat }.
+
+Lemma Q_ext c q L l0 n0 a b :
+  lvl b = lvl a -> dstep b = dstep a -> dval b = dval a -> d_on b = d_on a -> d_due b = d_due a ->
+  last b = last a -> chg (outs b) = chg (outs a) -> now a <= now b -> Q c q L l0 n0 a -> Q c q L l0 n0 b.
+Proof.
+  intros e1 e2 e3 e4 e5 e6 e7 e8 [[w1 w2 w3 w4] q2 q3 q4 q5]. constructor.
+  - constructor; rewrite ?e1, ?e2, ?e4, ?e5, ?e6; try assumption. intros H; specialize (w4 H); lia.
+  - congruence.
+  - unfold rem in *. rewrite e2, e3, e5. exact q3.
+  - rewrite e6; exact q4.
+  - rewrite e7, e6; exact q5.
+Qed.
+
+Lemma Q_mact c q L l0 n0 m s :
+  Q c q L l0 n0 s -> is_in m = false -> halted s = false -> halted (mact c m s) = false -> Q c q L l0 n0 (mact c m s).
+Proof.
+  intros HQ Ei Hs Hh.
+  destruct (micro_eq_deb m) as [->|Hd].
+  2:{ destruct (mact_frame c m s Ei Hd) as [a1 a2 a3 a4 a5 a6 a7 a9 a8]. eapply Q_ext; eauto. }
+  destruct (d_on s && (d_due s <=? now s)) eqn:Ep.
+  2:{ rewrite mact_deb by assumption. rewrite Ep. exact HQ. }
+  apply andb_prop in Ep as [Ep1 Ep2]. apply Z.leb_le in Ep2.
+  pose proof CF as [Cy Mi Sa Si _ _ _].
+  destruct HQ as [[w1 w2 w3 w4] q2 q3 q4 q5].
+  assert (Dn : dstep s <> 0) by (apply w2; exact Ep1). specialize (q3 Dn). specialize (w4 Ep1).
+  assert (RX : dstep (rearm_d s) = dstep s /\ dval (rearm_d s) = dval s /\ lvl (rearm_d s) = lvl s)
+    by (destruct s; cbn; repeat split).
+  destruct RX as (x1 & x2 & x3).
+  destruct (deb_fields c s Hs Ep1 Ep2) as [H|[H|H]]; cbv zeta in H.
+  - destruct H as (EA & h1 & h2 & h3 & h4 & h5 & h6 & h7 & h8 & h9).
+    unfold caseA in EA. rewrite x1, x2, x3 in EA.
+    constructor.
+    + constructor; rewrite ?h1, ?h3, ?h4, ?h5, ?h6, ?h8; wfin.
+    + congruence.
+    + intros _. unfold rem in *. rewrite h1, h2, h5, q2, Z.eqb_refl.
+      change (2 =? 0) with false. change (2 =? 1) with false. cbv iota. rewrite accept_us, Cy in *.
+      destruct (dstep s =? 0) eqn:E0; [apply Z.eqb_eq in E0; lia|].
+      destruct (dstep s =? 1) eqn:E1; [lia|]. cbn [orb] in EA. apply negb_true_iff in EA. rewrite q2 in EA. rewrite EA in q3. lia.
+    + rewrite h6; exact q4.
+    + rewrite h7, h6; exact q5.
+  - destruct H as (EA & EB & h3 & h6 & h8 & hc & hd). specialize (hd Hh) as [hd1 hd2].
+    constructor.
+    + constructor; rewrite ?hd1, ?hd2, ?h3, ?h6; wfin.
+    + congruence.
+    + congruence.
+    + right. rewrite h6, q2. reflexivity.
+    + rewrite hc, h6, q2. unfold bump in *. rewrite Z.eqb_refl. cbn [andb].
+      destruct q4 as [q4|q4]; rewrite q4 in *.
+      * destruct (l0 =? stl c L) eqn:E; cbn in *; lia.
+      * rewrite Z.eqb_refl in *. cbn [andb] in q5. destruct (negb (l0 =? stl c L)); lia.
+  - destruct H as (EA & EB & h1 & h2 & h3 & h4 & h5 & h6 & h7 & h8 & h9).
+    unfold caseB in EB. rewrite EA in EB. cbn [negb andb] in EB. apply Z.ltb_ge in EB. rewrite x1 in EB.
+    unfold caseA in EA. rewrite x1, x2, x3 in EA. apply orb_false_iff in EA as [EA1 EA2].
+    apply Z.eqb_neq in EA1. apply negb_false_iff in EA2. rewrite q2 in EA2.
+    constructor.
+    + constructor; rewrite ?h1, ?h3, ?h4, ?h5, ?h6, ?h8; wfin.
+    + congruence.
+    + intros _. unfold rem in *. rewrite h1, h2, h5. rewrite EA2 in *. rewrite accept_us, Cy in *.
+      destruct (dstep s =? 0) eqn:E0; [apply Z.eqb_eq in E0; lia|].
+      destruct (dstep s =? 1) eqn:E1; [apply Z.eqb_eq in E1; lia|].
+      destruct (dstep s + 1 =? 0) eqn:E2; [apply Z.eqb_eq in E2; lia|].
+      destruct (dstep s + 1 =? 1) eqn:E3; [apply Z.eqb_eq in E3; lia|]. lia.
+    + rewrite h6; exact q4.
+    + rewrite h7, h6; exact q5.
+Qed.
+
+Lemma Q_mstep c q L l0 n0 m s :
+  Q c q L l0 n0 s -> is_in m = false -> halted (mstep c m s) = false -> Q c q L l0 n0 (mstep c m s).
+Proof.
+  intros HQ Ei Hh. destruct (halted s) eqn:Hs; [rewrite halted_sticky in Hh by assumption; discriminate|].
+  destruct (mstep_proj c m s) as (e1&e2&e3&e4&e5&e6&e7&e8&e9). cbv zeta in *.
+  rewrite e9 in Hh. eapply Q_ext; try eassumption; try lia; [congruence|].
+  apply Q_mact; assumption.
+Qed.
+
+Lemma Q_mrun c q L l0 n0 ms : forall s,
+  Q c q L l0 n0 s -> no_in ms -> halted (mrun c ms s) = false -> Q c q L l0 n0 (mrun c ms s).
+Proof.
+  induction ms as [|m ms IH]; intros s HQ Hn Hh; [exact HQ|].
+  rewrite mrun_cons in *. unfold no_in in Hn. cbn in Hn. apply andb_prop in Hn as [Hn1 Hn2]. apply negb_true_iff in Hn1.
+  apply IH; try assumption. apply Q_mstep; try assumption.
+  destruct (halted (mstep c m s)) eqn:E; [|reflexivity].
+  exfalso. clear - E Hh. revert Hh. generalize (mstep c m s) E. clear. induction ms as [|m' ms IH]; intros x E Hh; cbn in *; [congruence|].
+  apply (IH (mstep c m' x)); [apply halted_sticky; exact E|exact Hh].
 Qed.
